@@ -433,6 +433,25 @@ pub fn main(args: &[String]) {
         rust_srcs.push((case.clone(), src.clone()));
         units.push(Unit { kw: vec![], case, target: target.into(), src, files: o.files, dir });
     }
+    // a comparison method on each kind of type: C++ derives `const` relational operators that call it
+    {
+        let src = "#[diplomat::bridge]\nmod ffi {\n    pub enum XtPriority { Low, High }\n    impl XtPriority {\n        #[diplomat::attr(auto, comparison)]\n        pub fn cmp(self, other: XtPriority) -> core::cmp::Ordering { unimplemented!() }\n        pub fn rank(self) -> u8 { unimplemented!() }\n    }\n    pub struct XtVersion { pub major: u8, pub minor: u8 }\n    impl XtVersion {\n        #[diplomat::attr(auto, comparison)]\n        pub fn cmp(self, other: XtVersion) -> core::cmp::Ordering { unimplemented!() }\n    }\n    #[diplomat::opaque]\n    pub struct XtKey(u8);\n    impl XtKey {\n        #[diplomat::attr(auto, comparison)]\n        pub fn cmp(&self, other: &XtKey) -> core::cmp::Ordering { unimplemented!() }\n    }\n}\n".to_string();
+        for target in ["cpp", "js", "c"] {
+            let o = tool::run_backend(&src, target);
+            let case = format!("(c09 {target} probe comparators)");
+            rep.case(&case);
+            rep.count("extras:comparators");
+            if o.ok() {
+                rep.count(&format!("{target}:accepted"));
+                let dir = work.join(format!("cmp-{target}"));
+                std::fs::create_dir_all(&dir).unwrap();
+                util::write_files(&dir, &o.files);
+                units.push(Unit { kw: vec![], case, target: target.into(), src: src.clone(), files: o.files, dir });
+            } else {
+                rep.count(&format!("{target}:comparators:{}", o.status().split(':').next().unwrap_or("?")));
+            }
+        }
+    }
     // traits under renames (C emits a header per trait and refers to it from every user)
     {
         let src = "#[diplomat::bridge]\n#[diplomat::attr(*, rename = \"Gfx{0}\")]\nmod ffi {\n    pub trait XtPainter {\n        fn paint(&self, x: i32) -> i32;\n    }\n    pub struct XtCanvas { pub w: u32 }\n    impl XtCanvas {\n        pub fn draw(self, p: impl XtPainter) -> i32 { unimplemented!() }\n    }\n    #[diplomat::attr(c, rename = \"Brush\")]\n    pub trait XtBrushTrait {\n        fn dab(&self);\n    }\n    #[diplomat::opaque]\n    pub struct XtTool;\n    impl XtTool {\n        pub fn apply(&self, b: impl XtBrushTrait, p: impl XtPainter) { unimplemented!() }\n    }\n}\n".to_string();
